@@ -14,7 +14,7 @@
      conv    (at)x -> bt : every ordered pair of the 12 arithmetic types, every value of the
              source type's table on which the conversion is defined (6.3.1.2 - 6.3.1.5)
      arith   x op y, op in add sub mul div, both operands of one floating type, ArT x ArT
-     neg     -x, ++x, x-- (the object afterwards)
+     neg     -x, ++x, x-- (the object afterwards), the value of x++ and x-- (the old value, 6.5.2.4p2)
      cmp     x op y, six relational/equality operators, CmT x CmT  (int result)
      truth   if (x) / !x / x ? : / (x && y) / (x || y) over CmT    (int result)
      dec     decimal floating constants  digits x 10^e  x suffix
@@ -25,6 +25,8 @@
      opasg   x op= y with operands of different arithmetic types, at least one floating
              (6.5.16.2: x = (T)(x op y) evaluated in the common type); defined cases only
      vararg  a float / double argument matching "..." (default argument promotion)
+     d2l d2r (x op y) op2 z  /  z op2 (x op y): nested operations (temporaries on the stack / the x87
+             register stack, operand order at depth 2); op in + - /, op2 in - / *; the case's "b" is op2
 
    Seed/Stride subsample the large families (arith cmp truth-binary dec hex mixed) for the
    quick tier; conv, neg, the unary truth tests and vararg are always complete.
@@ -110,6 +112,8 @@ ArTab(F) == <<Zero(0), Zero(1), FI(F, 1), Neg(FI(F, 1)), FI(F, 2), FI(F, 3), Vd(
 (* the class set of the comparisons and truth tests *)
 CmTab(F) == <<NaN, Inf(0), Inf(1), Zero(0), Zero(1), FI(F, 1), Neg(FI(F, 1)), MinDen(F), Neg(MinDen(F)), OnePlus(F),
               FI(F, 2), MaxFin(F), Neg(MaxFin(F)), Vd(F, 0, X(1), -1)>>
+(* depth 2: finite non-zero values whose sums, differences, products and quotients round *)
+D2Tab(F) == <<FI(F, 1), FI(F, 3), Third(F), Tenth(F), Vd(F, 1, X(29), -2), Fin(0, 0, Pm(F.p, 1)), OnePlus(F), FI(F, 10)>>
 (* mixed-type arithmetic: few values per type *)
 MixTab(t) == IF IsF(t) THEN <<Third(Fmt(t)), FI(Fmt(t), 16777216), Vd(Fmt(t), 1, X(3), -1)>>
              ELSE IF t = "bool" THEN <<IV(FALSE, X(1))>>
@@ -144,15 +148,19 @@ ASSUME TLCSet(21, TabOf(CvT, TSeq))
 ASSUME TLCSet(22, TabOf(LAMBDA t : ArTab(Fmt(t)), FSeq))
 ASSUME TLCSet(23, TabOf(LAMBDA t : CmTab(Fmt(t)), FSeq))
 ASSUME TLCSet(24, TabOf(MixTab, TSeq))
+ASSUME TLCSet(25, TabOf(LAMBDA t : D2Tab(Fmt(t)), FSeq))
 
-Big == fam \in {"arith", "cmp", "dec", "hex", "mixed", "opasg"} \/ (fam = "truth" /\ op \in {"land", "lor"})
+D2 == fam \in {"d2l", "d2r"}
+Big == fam \in {"arith", "cmp", "dec", "hex", "mixed", "opasg", "d2l", "d2r"} \/ (fam = "truth" /\ op \in {"land", "lor"})
 Unary == fam \in {"conv", "neg", "vararg"} \/ (fam = "truth" /\ op \in {"if", "not", "cond"})
 Tab(t) == CASE fam = "conv" -> TLCGet(21)[t]
             [] fam \in {"arith", "neg", "vararg"} -> TLCGet(22)[t]
             [] fam \in {"cmp", "truth"} -> TLCGet(23)[t]
             [] fam \in {"mixed", "opasg"} -> TLCGet(24)[t]
+            [] D2 -> TLCGet(25)[t]
 NI1 == CASE fam = "dec" -> Len(DecMan) [] fam = "hex" -> Len(HexMan) [] OTHER -> Len(Tab(a))
-NJ1 == CASE fam = "dec" -> Len(DecExp) [] fam = "hex" -> Len(HexExp) [] Unary -> 1 [] OTHER -> Len(Tab(b))
+NJ1 == CASE fam = "dec" -> Len(DecExp) [] fam = "hex" -> Len(HexExp) [] Unary -> 1 [] D2 -> Len(Tab(a)) [] OTHER -> Len(Tab(b))
+ZIdx(ii, jj) == ((ii + jj) % Len(Tab(a))) + 1          \* the third operand of the depth-2 families
 
 N1S == {"-"}
 ArOps == {"add", "sub", "mul", "div"}
@@ -160,7 +168,7 @@ RelOps == {"lt", "le", "gt", "ge", "eq", "ne"}
 Cases ==
   ({"conv"} \X N1S \X ATypes \X ATypes)
   \cup {<<"arith", o, t, t>> : o \in ArOps, t \in FTypes}
-  \cup {<<"neg", o, t, "-">> : o \in {"neg", "inc", "dec"}, t \in FTypes}
+  \cup {<<"neg", o, t, "-">> : o \in {"neg", "inc", "dec", "postinc", "postdec"}, t \in FTypes}
   \cup {<<"cmp", o, t, t>> : o \in RelOps, t \in FTypes}
   \cup {<<"truth", o, t, "-">> : o \in {"if", "not", "cond"}, t \in FTypes}
   \cup {<<"truth", o, t, t>> : o \in {"land", "lor"}, t \in FTypes}
@@ -170,13 +178,14 @@ Cases ==
                               t \in ATypes, u \in ATypes}
   \cup {<<"opasg", o, t, u>> : o \in ArOps, t \in ATypes, u \in ATypes}
   \cup {<<"vararg", "-", t, "-">> : t \in {"float", "double"}}
+  \cup {<<f, o, t, o2>> : f \in {"d2l", "d2r"}, o \in {"add", "sub", "div"}, t \in FTypes, o2 \in {"sub", "div", "mul"}}
 CaseOK(cs) == cs[1] \in {"mixed", "opasg"} => (cs[3] # cs[4] /\ (IsF(cs[3]) \/ IsF(cs[4])))
 OIdx(o) == CASE o = "add" -> 1 [] o = "sub" -> 2 [] o = "mul" -> 3 [] o = "div" -> 4 [] o = "lt" -> 5 [] o = "le" -> 6
              [] o = "gt" -> 7 [] o = "ge" -> 8 [] o = "eq" -> 9 [] o = "ne" -> 10 [] o = "land" -> 11 [] o = "lor" -> 12
-             [] o = "cond" -> 13 [] o = "inc" -> 14 [] o = "dec" -> 15
+             [] o = "cond" -> 13 [] o = "inc" -> 14 [] o = "dec" -> 15 [] o = "postinc" -> 16 [] o = "postdec" -> 17
              [] OTHER -> 0
 TI(t) == IF t = "-" THEN 0 ELSE TIdx(t)
-CaseHash(cs) == OIdx(cs[2]) * 101 + TI(cs[3]) * 7 + TI(cs[4]) * 13
+CaseHash(cs) == OIdx(cs[2]) * 101 + TI(cs[3]) * 7 + (IF cs[1] \in {"d2l", "d2r"} THEN OIdx(cs[4]) * 17 ELSE TI(cs[4]) * 13)
 Pick(ii, jj) == Big => (hb + ii * 31 + jj * 37 + Seed) % Stride = 0
 
 (* ---- Level A on the current case ------------------------------------------------ *)
@@ -193,7 +202,8 @@ Expect(ii, jj) ==
     [] fam = "arith" -> R(TRUE, a, Arith(Fmt(a), op, Tab(a)[ii], Tab(a)[jj]))
     [] fam = "neg"   -> R(TRUE, a, CASE op = "neg" -> Neg(Tab(a)[ii])
                                       [] op = "inc" -> Add(Fmt(a), Tab(a)[ii], FI(Fmt(a), 1))
-                                      [] op = "dec" -> Sub(Fmt(a), Tab(a)[ii], FI(Fmt(a), 1)))
+                                      [] op = "dec" -> Sub(Fmt(a), Tab(a)[ii], FI(Fmt(a), 1))
+                                      [] OTHER -> Tab(a)[ii])
     [] fam = "cmp"   -> R(TRUE, "int", BoolIV(Rel(op, Tab(a)[ii], Tab(a)[jj])))
     [] fam = "truth" -> LET x == Tab(a)[ii] IN
                         R(TRUE, "int", BoolIV(CASE op \in {"if", "cond"} -> Truth(x)
@@ -212,13 +222,19 @@ Expect(ii, jj) ==
     [] fam = "opasg" -> LET ct == CommonType(a, b)
                             r  == Arith(Fmt(ct), op, Conv(a, ct, Tab(a)[ii]), Conv(b, ct, Tab(b)[jj]))
                         IN IF ConvDef(ct, a, r) THEN R(TRUE, a, Conv(ct, a, r)) ELSE R(FALSE, a, 0)
+    [] D2 -> LET F == Fmt(a)
+                 in == Arith(F, op, Tab(a)[ii], Tab(a)[jj])
+                 z  == Tab(a)[ZIdx(ii, jj)]
+             IN R(TRUE, a, IF fam = "d2l" THEN Arith(F, b, in, z) ELSE Arith(F, b, z, in))
     [] fam = "vararg" -> R(TRUE, ArgPromote(a), FloatToFloat(Fmt(ArgPromote(a)), Tab(a)[ii]))
 
 EmitR(r, ii, jj) ==
   IF ~r.ok THEN FALSE
-  ELSE CSVWrite("%1$s", <<ToJson([f |-> fam, op |-> op, at |-> a, bt |-> b, rt |-> r.t, sz |-> SizeOf(r.t),
+  ELSE CSVWrite("%1$s", <<ToJson([f |-> fam, op |-> op, at |-> a, bt |-> IF D2 THEN a ELSE b, rt |-> r.t, sz |-> SizeOf(r.t),
+                                   op2 |-> IF D2 THEN b ELSE "", zb |-> IF D2 THEN ValBytes(a, Tab(a)[ZIdx(ii, jj)]) ELSE << >>,
                                    xb |-> IF fam \in {"dec", "hex"} THEN << >> ELSE ValBytes(a, Tab(a)[ii]),
-                                   yb |-> IF Unary \/ fam \in {"dec", "hex"} THEN << >> ELSE ValBytes(b, Tab(b)[jj]),
+                                   yb |-> IF Unary \/ fam \in {"dec", "hex"} THEN << >>
+                                          ELSE IF D2 THEN ValBytes(a, Tab(a)[jj]) ELSE ValBytes(b, Tab(b)[jj]),
                                    rb |-> ValBytes(r.t, r.v),
                                    rn |-> IsF(r.t) /\ r.v.k = "nan",
                                    man |-> CASE fam = "dec" -> Str(DecMan[ii]) [] fam = "hex" -> Str(HexMan[ii]) [] OTHER -> "",
